@@ -139,4 +139,14 @@ ConstSpaceQuick(u) == {e \in CInt1(u) \cup CBool1(u) : e.k # "c"}
                       \cup CConn1(u) \cup CConn2Quick(u)
 ConstSpaceAll(u) == {e \in CInt1(u) \cup CBool1(u) \cup CInt2(u) \cup CBool2(u) : e.k # "c"}
                     \cup CConn1(u) \cup CConn2All(u)
+(* ---- scans: tables of 1..2 rows; the fourth column is untyped (as a metadata value is): it holds TRUE in one row and 1
+        in another, FALSE and 0 -- different BQL values the host language calls equal -- next to rows that differ plainly
+        and rows that repeat.  Expressions: the columns themselves, one level of operators and of connectives. ---- *)
+ScanRows == { <<I(1), I(4), S(1), B(TRUE)>>, <<I(1), I(4), S(1), I(1)>>, <<Null, I(0), S(2), B(FALSE)>>,
+              <<Null, I(0), S(2), I(0)>>, <<I(2), I(2), S(0), B(TRUE)>> }
+ScanTables(u) == UNION { [1..n -> ScanRows] : n \in 1..2 }
+ScanExprs(u) == {Acc(1, "int"), Acc(3, "str"), Acc(4, "bool")} \cup Int1(u) \cup Bool1(u) \cup Conn1(u)
+ScanLaw == cur = cur /\ ScanLawIn("plain", ScanExprs(0), ScanTables(0)) /\ ScanLawIn("memo-value", ScanExprs(0), ScanTables(0))
+(* non-vacuity: a memo keyed by the host language's equality must be rejected (TRUE, then 1, in one column) *)
+ScanLawHost == cur = cur /\ ScanLawIn("memo-host", ScanExprs(0), ScanTables(0))
 =============================================================================
